@@ -1262,7 +1262,7 @@ class Request:
             self.startedWriting = 1
             version = self.clientproto
             code = b"%d" % (self.code,)
-            reason = self.code_message
+            reason = _sanitizeLinearWhitespace(self.code_message)
 
             # if we don't have a content length, we send data in
             # chunked mode, so that we can support pipelining in
